@@ -19,6 +19,10 @@ THEOREMS = [
     "Mesa.Cont.C10_exp_positions_inside",
     "Mesa.Cont.C10_legacy_valid_calls_succeed",
     "Mesa.Cont.C10_exp_valid_calls_succeed",
+    "Mesa.Cont.C10_exp_iadd_is_assignment",
+    "Mesa.Cont.C10_exp_removed_agent_is_dead",
+    "Mesa.Cont.C10_exp_remove_lifecycle",
+    "Mesa.Cont.C10_exp_agent_api",
     "Mesa.Cont.C10_legacy_neighbors_exact",
     "Mesa.Cont.C10_legacy_neighbors_mem",
     "Mesa.Cont.C10_exp_radius_exact",
@@ -40,6 +44,7 @@ THEOREMS = [
     "Mesa.Cont.C18_cont_move_reject_unchanged",
     "Mesa.Cont.C18_cont_remove_reject_unchanged",
     "Mesa.Cont.C18_cont_setpos_reject_unchanged",
+    "Mesa.Cont.C18_cont_iadd_reject_unchanged",
     "Mesa.Cont.C18_cont_legacy_rejected_call_erasable",
     "Mesa.Cont.C18_cont_exp_rejected_call_erasable",
 ]
@@ -55,11 +60,11 @@ ASSUMPTIONS = [
     "every axis has min < max",
     "toroidal-metric clauses are stated for points of the space (legacy: min <= x < max, experimental: min <= x <= max)",
     "a ContinuousSpaceAgent is assigned a position before its position is read or queried",
-    "moves/removals through the experimental API target agents that are in the space",
+    "experimental agent ids name agent objects: an id is created once (a second `new` of the same id has no counterpart in the code)",
 ]
 RULE = ("random histories over both classes (50/50; 10% from the rejecting-call stream of C18): bounds with negative / non-unit origins and sizes 1/64 .. 15.6, torus on/off, "
         "experimental: 1-D .. 5-D (2-D and 3-D most often) and initial capacities {0,1,2,3,5,50,100}; 4-45 ops from place/new+set, move/set (12% per-axis out of bounds, "
-        "coincident and boundary positions), remove, pos, agents, radius / k-nearest (k in 0..n+1, often n) / neighbour queries incl. on the "
+        "coincident and boundary positions), `position += v` and item writes into the returned position (experimental), remove, every agent method on removed agent objects, pos, agents, radius / k-nearest (k in 0..n+1, often n) / neighbour queries incl. on the "
         "empty space and right after a cached read + move, distances and heading/difference vectors; radii aimed at exact agent distances; "
         "non-trivial = >= 2 agents in the space at some point, a mutation after the first query and a query answer naming an agent; "
         "distinct = distinct op-line sequences (sha1)")
@@ -82,7 +87,7 @@ run_impl = C.run_impl
 oracle = C.oracle
 
 QUERIES = ("nbrs", "radius", "knn", "nir", "nn", "dists")
-MUTATORS = ("place", "move", "set", "remove", "new")
+MUTATORS = ("place", "move", "set", "remove", "new", "iadd")
 
 
 def nontrivial(sc, obs):
@@ -115,9 +120,21 @@ def tags(sc, obs):
         yield "cap:" + w0[4]
         yield "ndims:%d" % ((len(w0) - 5) // 2)
     live, cached, first = [], False, True
+    dead = set()
     for l, o in zip(sc.lines[1:], obs[1:]):
         w = l.split()
         yield "op:" + w[0]
+        if kind == "exp":
+            if w[0] in ("get", "set", "remove", "nir", "nn", "iadd", "poke") and w[1] in dead:
+                yield "branch:call-on-removed-agent"
+            if w[0] in ("dists", "diffs") and ":" in w and dead & set(w[w.index(":") + 1:]):
+                yield "branch:removed-agent-in-subset"
+            if w[0] == "remove" and o == "ok":
+                dead.add(w[1])
+            if w[0] == "iadd" and o == "err OutOfBounds":
+                yield "branch:iadd-rejected"
+            if w[0] == "poke" and o == "ok":
+                yield "branch:write-into-returned-position"
         if o.startswith("err"):
             yield "reject:" + w[0] + ":" + o.split()[1]
         if w[0] in QUERIES + ("diffs", "agents") and not live:
